@@ -464,8 +464,11 @@ def finish(ctx, proofs, gen_hashes, gen_errors, level="proof", extra_cov=None):
         cov.update(extra_cov)
     ev = dict(property_id=ctx.prop, tier=ctx.tier, seed=ctx.seed, level=level, coverage=cov,
               assumptions=TRUSTED_BASE[2:], wall_s=round(ctx.elapsed(), 2), violations=len(new_failures) if new_failures else (1 if status else 0))
-    os.makedirs(os.path.join(VERIF, "evidence"), exist_ok=True)
-    with open(os.path.join(VERIF, "evidence", f"{ctx.prop}.json"), "w") as f:
+    # evidence describes runs against /repo itself; a run against another tree (VERIF_REPO=<scratch worktree with a seeded change>)
+    # must not overwrite it
+    evdir = os.path.join(VERIF, "evidence") if os.path.realpath(buildmod.REPO) == "/repo" else os.path.join(VERIF, "replays", "evidence-other-tree")
+    os.makedirs(evdir, exist_ok=True)
+    with open(os.path.join(evdir, f"{ctx.prop}.json"), "w") as f:
         json.dump(ev, f, indent=1, default=str)
     return status
 
